@@ -182,12 +182,31 @@ def run(ctx, F, rule="E-TABLE.i64"):
                         want = "nan" if math.isnan(w) else ("inf+" if w == math.inf else "inf-" if w == -math.inf else "num")
                         okc = got == want
                         why = "extended-real arithmetic gives %s" % want
+                if okc and got == "num" and a.short == "Num" and b.short in ("PlusInf", "MinusInf") and op == "div":
+                    lit = val.args[0] if val.args else None
+                    if not (isinstance(lit, int) and not isinstance(lit, bool) and lit == 0):
+                        okc, why = False, "a finite number divided by an infinity is exactly 0"
                 ctx.ob(rule + ".case", key, okc, "%s -> %s" % (sit, val), report=False)
                 if not okc:
                     fails.append("%s yields %r but %s" % (sit, val, why))
         ctx.ob(rule, "%s:%s" % (rule, op), not fails,
                ("<I64 as %s>::%s (%s): %d abstract case(s) disagree with exact arithmetic saturated to +-inf; first: %s"
                 % (tr, op, F.where(fid), len(fails), " || ".join(fails[:3]))) if fails else "all sign-class cases agree")
+    # the constants of NumberBase
+    for nm, want in (("zero", ("Num", 0)), ("one", ("Num", 1)), ("nan", ("NaN", None))):
+        fids = [fid for fid, r in F.fns.items() if (r.get("impl") or {}).get("trait") == "oxidd_core::function::NumberBase"
+                and (r.get("impl") or {}).get("self") == I64 and fid.endswith("::" + nm)]
+        if not ctx.anchor(rule, "<I64 as NumberBase>::%s" % nm, len(fids) == 1):
+            continue
+
+        def mk2(oracle):
+            return Interp(F, I64Domain(F), oracle)
+        for trace, (status, val) in enumerate_runs(mk2, lambda it: it.call_fn(fids[0], [])):
+            n += 1
+            ok = status == "ok" and isinstance(val, Enum) and val.short == want[0] and \
+                (want[1] is None or (val.args and val.args[0] == want[1] and not isinstance(val.args[0], bool)))
+            ctx.ob(rule, "%s:%s" % (rule, nm), ok, "<I64 as NumberBase>::%s (%s) yields %r%s" %
+                   (nm, F.where(fids[0]), val, "" if ok else ", expected %s%s" % (want[0], "" if want[1] is None else "(%d)" % want[1])))
     return n
 
 
